@@ -39,6 +39,10 @@ pub fn parsers<'s>() -> Vec<(&'static str, Boxed<'s, 's, &'s str, Out, EZ<'s>>)>
     v.push(("any().map(T).repeated().collect_exactly::<Box<[T;3]>>().or(just('a').map(T).repeated().collect::<Vec<_>>())", z().repeated().collect_exactly::<Box<[Tracked; 3]>>().map(|b| keep(3, b)).or(za().repeated().collect::<Vec<_>>().map(|v| keep(v.len(), v))).then_ignore(rest()).boxed()));
     v.push(("just('a').map(T).separated_by(just('b')).allow_trailing().collect_exactly::<Box<[T;2]>>().or_not().then(rest)", za().separated_by(just('b')).allow_trailing().collect_exactly::<Box<[Tracked; 2]>>().or_not().then_ignore(rest()).map(|o| keep(o.as_ref().map(|_| 2).unwrap_or(0), o)).boxed()));
     v.push(("collect_exactly::<Box<[Box<[T;2]>;2]>> (nested boxes, inner partial failure)", za().or(just('b').map(|_| tv(2))).repeated().collect_exactly::<Box<[Tracked; 2]>>().repeated().collect_exactly::<Box<[Box<[Tracked; 2]>; 2]>>().map(|b| keep(4, b)).or(z().repeated().at_most(1).collect::<Vec<_>>().map(|v| keep(v.len(), v))).then_ignore(rest()).boxed()));
+    // the iterable asks for more items than the array holds: the collection is full before the iterable is satisfied
+    v.push(("just('a').map(T).repeated().at_least(4).collect_exactly::<[T;3]>().or_not().then(rest)", za().repeated().at_least(4).collect_exactly::<[Tracked; 3]>().or_not().then_ignore(rest()).map(|o| keep(o.as_ref().map(|_| 3).unwrap_or(0), o)).boxed()));
+    v.push(("any().map(T).repeated().exactly(3).collect_exactly::<Box<[T;2]>>().or(any().map(T).repeated().collect::<Vec<_>>())", z().repeated().exactly(3).collect_exactly::<Box<[Tracked; 2]>>().map(|b| keep(2, b)).or(z().repeated().collect::<Vec<_>>().map(|v| keep(v.len(), v))).then_ignore(rest()).boxed()));
+    v.push(("just('a').map(T).separated_by(just('b')).at_least(3).collect_exactly::<[T;2]>().then(rest) else Vec", za().separated_by(just('b')).at_least(3).collect_exactly::<[Tracked; 2]>().map(|a| keep(2, a)).or(z().repeated().at_most(2).collect::<Vec<_>>().map(|v| keep(v.len(), v))).then_ignore(rest()).boxed()));
     v.push(("collect::<LinkedList<T>>() after at_least(2), else collect::<VecDeque<T>>()", za().repeated().at_least(2).collect::<LinkedList<Tracked>>().map(|l| keep(l.len(), l)).or(z().repeated().at_most(3).collect::<VecDeque<Tracked>>().map(|l| keep(l.len(), l))).then_ignore(rest()).boxed()));
     v.push(("collect::<BTreeMap<char,T>>() (duplicate keys replace values)", any::<&str, EZ>().map(|c| (c, tv(3))).repeated().collect::<BTreeMap<char, Tracked>>().map(|m| keep(m.len(), m)).boxed()));
     v.push(("collect::<HashMap<char,T>>() then just(';') else collect::<HashSet<T>>()", none_of::<_, &str, EZ>(';').map(|c| (c, tv(3))).repeated().collect::<HashMap<char, Tracked>>().then_ignore(just(';')).map(|m| keep(m.len(), m)).or(z().repeated().collect::<HashSet<Tracked>>().map(|s| keep(s.len(), s))).boxed()));
